@@ -1,7 +1,11 @@
 (* CrcAlgebraProofs.v -- algebraic characterisation of packet.CRC16 (C03, stretch goal):
-   linearity over GF(2), remainder modulo x^16+x^15+x^2+1, residue 0 of a frame with its trailer,
-   detection of single-bit / single-byte / burst<=16 errors. *)
-From Coq Require Import ZifyBool ZifyN ZifyNat Btauto.
+   1 linearity over GF(2); 2 GF(2)[x] (product, degree, unique remainder, pmod); 3 the register is
+   the remainder modulo x^16+x^15+x^2+1; 4 residue 0 of a frame with its trailer and the receiver's
+   check; 5 detection of single-bit / single-byte / burst<=16 errors.
+   Everything is by induction / bitwise reasoning for all byte strings and all register values.
+   Finite sweeps: the 16 coefficient positions of the constant generator ([G16_reflected]) and the
+   256 byte values of [low_kernel] (bound in the statement); no sweep over register values. *)
+From Coq Require Import ZifyBool ZifyN ZifyNat.
 Require Import MB.GoSem MB.CrcModel MB.CrcSpec MB.proofs.CrcProofs MB.CrcAlgebra.
 Open Scope N_scope.
 Ltac Zify.zify_post_hook ::= Z.div_mod_to_equations.
@@ -58,6 +62,12 @@ Proof.
   destruct (N.odd a), (N.odd b); cbn [xorb]; xor_solve.
 Qed.
 Lemma bit_step_0 : bit_step 0 = 0. Proof. reflexivity. Qed.
+Lemma bit_step_lt c : c < 65536 -> bit_step c < 65536.
+Proof.
+  intros H. rewrite bit_step_alt. apply (lxor_lt_pow2 _ _ 16).
+  - rewrite N.shiftr_div_pow2. change (2 ^ 16) with 65536. change (2 ^ 1) with 2. lia.
+  - destruct (N.odd c); reflexivity.
+Qed.
 
 Lemma iter_bit_step_lxor n : forall a b,
   iter n bit_step (N.lxor a b) = N.lxor (iter n bit_step a) (iter n bit_step b).
@@ -383,18 +393,121 @@ Lemma rev16_lt c : rev16 c < 65536. Proof. exact (revw_lt 16 c). Qed.
 Lemma rev16_involutive c : c < 65536 -> rev16 (rev16 c) = c. Proof. exact (revw_involutive 16 c). Qed.
 
 (* --- 3c. the reflected bit step is the unreflected "times x, plus bit at x^16, reduce" ---------
-   compared for all 2^16 register values and both message bits (bound in the statement) *)
-Definition refl_pred (c : N) : bool :=
-  (rev16 (feed c true) =? nfeed (rev16 c) true) && (rev16 (feed c false) =? nfeed (rev16 c) false) &&
-  (feed c true <? 65536) && (feed c false <? 65536).
-Lemma refl_sweep : forallb refl_pred (seqN 65536) = true. Proof. vm_compute. reflexivity. Qed.
-
-Lemma feed_reflect c b : c < 65536 -> rev16 (feed c b) = nfeed (rev16 c) b /\ feed c b < 65536.
+   bit by bit: bit k of [rev16 c] is bit 15-k of c; no enumeration of register values *)
+Lemma testbit_cons_0 (b : bool) r : N.testbit ((if b then 1 else 0) + 2 * r) 0 = b.
+Proof. rewrite N.bit0_odd, N.odd_add_mul_2. destruct b; reflexivity. Qed.
+Lemma testbit_cons_succ (b : bool) r k : N.testbit ((if b then 1 else 0) + 2 * r) (N.succ k) = N.testbit r k.
 Proof.
-  intros H. pose proof (proj1 (forallb_forall _ _) refl_sweep c (in_seqN _ _ H)) as S.
-  unfold refl_pred in S. rewrite !andb_true_iff in S. destruct S as [[[A B] C] D].
-  apply N.eqb_eq in A, B. apply N.ltb_lt in C, D. destruct b; auto.
+  destruct b; [rewrite N.add_comm; apply (N.testbit_succ_r r true)|rewrite N.add_0_l; apply N.double_bits_succ].
 Qed.
+
+Lemma N_of_bv_testbit : forall v k, N.testbit (N_of_bv v) k = nth (N.to_nat k) v false.
+Proof.
+  induction v as [|b v IH]; intros k.
+  - cbn [N_of_bv]. rewrite N.bits_0. destruct (N.to_nat k); reflexivity.
+  - cbn [N_of_bv]. destruct (N.eq_dec k 0) as [->|Hk].
+    + rewrite testbit_cons_0. reflexivity.
+    + replace k with (N.succ (N.pred k)) by lia. rewrite testbit_cons_succ, N2Nat.inj_succ. cbn [nth]. apply IH.
+Qed.
+
+Lemma nth_bv_of_N w : forall n i,
+  nth i (bv_of_N w n) false = if (i <? w)%nat then N.testbit n (N.of_nat i) else false.
+Proof.
+  induction w as [|w IH]; intros n i.
+  - cbn [bv_of_N]. destruct i; reflexivity.
+  - cbn [bv_of_N]. destruct i as [|i].
+    + cbn [nth]. rewrite <- N.bit0_odd. reflexivity.
+    + cbn [nth]. rewrite IH. change (S i <? S w)%nat with (i <? w)%nat.
+      destruct (i <? w)%nat; [|reflexivity]. rewrite Nat2N.inj_succ, N.div2_div. apply N.div2_bits.
+Qed.
+
+Lemma revw_bits w c k :
+  N.testbit (revw w c) k = if k <? N.of_nat w then N.testbit c (N.of_nat w - 1 - k) else false.
+Proof.
+  unfold revw. rewrite N_of_bv_testbit.
+  destruct (k <? N.of_nat w) eqn:L.
+  - apply N.ltb_lt in L. rewrite rev_nth by (rewrite bv_of_N_length; lia).
+    rewrite bv_of_N_length, nth_bv_of_N.
+    replace (w - S (N.to_nat k) <? w)%nat with true by (symmetry; apply Nat.ltb_lt; lia).
+    f_equal. lia.
+  - apply N.ltb_ge in L. apply nth_overflow. rewrite rev_length, bv_of_N_length. lia.
+Qed.
+Lemma rev16_bits_low c k : k < 16 -> N.testbit (rev16 c) k = N.testbit c (15 - k).
+Proof.
+  intros H. unfold rev16. rewrite revw_bits. replace (k <? N.of_nat 16) with true by (symmetry; apply N.ltb_lt; lia).
+  f_equal.
+Qed.
+Lemma rev16_bits_high c k : 16 <= k -> N.testbit (rev16 c) k = false.
+Proof.
+  intros H. unfold rev16. rewrite revw_bits. replace (k <? N.of_nat 16) with false by (symmetry; apply N.ltb_ge; lia).
+  reflexivity.
+Qed.
+
+(* the two forms of the generator: bit k of x^16+x^15+x^2+1 is bit 15-k of 0xA001 (k < 16) *)
+Lemma G16_reflected k : k < 16 -> N.testbit 0xA001 (15 - k) = N.testbit G16 k.
+Proof.
+  intros H.
+  assert (C : forallb (fun k => Bool.eqb (N.testbit 0xA001 (15 - k)) (N.testbit G16 k)) (seqN 16) = true) by (vm_compute; reflexivity).
+  apply Bool.eqb_prop. exact (proj1 (forallb_forall _ _) C k (in_seqN _ _ H)).
+Qed.
+
+Lemma feed_alt c b :
+  feed c b = N.lxor (N.shiftr c 1) (if xorb (N.odd c) b then 0xA001 else 0).
+Proof.
+  unfold feed. rewrite bit_step_alt, N.shiftr_lxor, odd_lxor. f_equal; destruct b; cbn; rewrite ?N.lxor_0_r; reflexivity.
+Qed.
+
+Lemma double_bits_0 a : N.testbit (N.double a) 0 = false.
+Proof. rewrite N.double_spec. apply N.testbit_even_0. Qed.
+Lemma double_bits_succ' a k : N.testbit (N.double a) (N.succ k) = N.testbit a k.
+Proof. rewrite N.double_spec. apply N.double_bits_succ. Qed.
+
+Lemma nfeed_alt r b : r < 65536 ->
+  nfeed r b = N.lxor (N.lxor (N.double r) (if b then 65536 else 0)) (if xorb (N.testbit r 15) b then G16 else 0).
+Proof.
+  intros H. unfold nfeed, reduce1. change (pdeg G16) with 16.
+  rewrite N.lxor_spec. change 16 with (N.succ 15) at 1. rewrite double_bits_succ'.
+  replace (N.testbit (if b then 65536 else 0) 16) with b by (destruct b; reflexivity).
+  destruct (xorb (N.testbit r 15) b); [reflexivity|rewrite N.lxor_0_r; reflexivity].
+Qed.
+
+Lemma bit16_const (b : bool) k : k <> 16 -> N.testbit (if b then 65536 else 0) k = false.
+Proof. intros H. destruct b; [change 65536 with (2 ^ 16); apply N.pow2_bits_false; lia|apply N.bits_0]. Qed.
+
+Lemma feed_reflect_eq c b : c < 65536 -> rev16 (feed c b) = nfeed (rev16 c) b.
+Proof.
+  intros H. rewrite nfeed_alt by apply rev16_lt. rewrite feed_alt.
+  rewrite (rev16_bits_low c 15) by lia. change (15 - 15) with 0. rewrite N.bit0_odd.
+  set (o := xorb (N.odd c) b).
+  apply N.bits_inj. intros k. rewrite !N.lxor_spec.
+  destruct (N.lt_ge_cases k 16) as [L|L].
+  - rewrite rev16_bits_low by exact L. rewrite N.lxor_spec, N.shiftr_spec', bit16_const, xorb_false_r by lia.
+    assert (Gk : N.testbit (if o then 40961 else 0) (15 - k) = N.testbit (if o then G16 else 0) k).
+    { destruct o; [apply G16_reflected, L|rewrite !N.bits_0; reflexivity]. }
+    rewrite Gk. f_equal.
+    destruct (N.eq_dec k 0) as [->|Hk].
+    + rewrite double_bits_0. apply (bits_above_pow2 c 16); [exact H|lia].
+    + replace k with (N.succ (N.pred k)) at 2 by lia. rewrite double_bits_succ', rev16_bits_low by lia.
+      f_equal. lia.
+  - rewrite rev16_bits_high by exact L.
+    destruct (N.eq_dec k 16) as [->|Hk].
+    + change 16 with (N.succ 15) at 1. rewrite double_bits_succ', rev16_bits_low by lia.
+      change (15 - 15) with 0. rewrite N.bit0_odd.
+      replace (N.testbit (if b then 65536 else 0) 16) with b by (destruct b; reflexivity).
+      replace (N.testbit (if o then G16 else 0) 16) with o by (destruct o; reflexivity).
+      unfold o. destruct (N.odd c), b; reflexivity.
+    + replace k with (N.succ (N.pred k)) at 1 by lia.
+      rewrite double_bits_succ', rev16_bits_high, bit16_const by lia.
+      destruct o; [|rewrite N.bits_0; reflexivity].
+      rewrite (N.bits_above_log2 G16 k) by (change (N.log2 G16) with 16; lia). reflexivity.
+Qed.
+
+Lemma feed_lt c b : c < 65536 -> feed c b < 65536.
+Proof.
+  intros H. unfold feed. apply bit_step_lt. apply (lxor_lt_pow2 _ _ 16); [exact H|destruct b; reflexivity].
+Qed.
+Lemma feed_reflect c b : c < 65536 -> rev16 (feed c b) = nfeed (rev16 c) b /\ feed c b < 65536.
+Proof. intros H. split; [apply feed_reflect_eq, H|apply feed_lt, H]. Qed.
 
 Lemma crc_bits_reflect : forall bs c, c < 65536 ->
   rev16 (crc_bits c bs) = fold_left nfeed bs (rev16 c) /\ crc_bits c bs < 65536.
@@ -479,7 +592,16 @@ Proof. intros Hm. exact (crc_from_is_pmod 0xFFFF m eq_refl Hm). Qed.
 Corollary crc16_is_rev_pmod m : bytes_ok m ->
   crc16 m = rev16 (pmod (padd (pshift 0xFFFF (N.of_nat (8 * length m))) (pshift (msg_poly m) 16)) G16).
 Proof.
-  intros Hm. rewrite <- crc16_is_pmod by exact Hm. symmetry. apply rev16_involutive, crc16_lt, Hm.
+  intros Hm. rewrite <- crc16_is_pmod by exact Hm. symmetry. apply rev16_involutive. exact (crc_from_lt 0xFFFF m eq_refl Hm).
+Qed.
+
+(* the same as a sum of two remainders: message part + preset part *)
+Corollary crc16_is_sum_of_pmods m : bytes_ok m ->
+  rev16 (crc16 m) = padd (pmod (pshift (msg_poly m) 16) G16)
+                         (pmod (pshift 0xFFFF (N.of_nat (8 * length m))) G16).
+Proof.
+  intros Hm. rewrite crc16_is_pmod by exact Hm. unfold padd.
+  rewrite pmod_lxor by exact G16_neq_0. apply N.lxor_comm.
 Qed.
 
 (* the preset's contribution alone, and the split of section 1 in polynomial form *)
@@ -512,12 +634,6 @@ Proof. unfold msg_poly, poly_of_bits. rewrite poly_of_bits_fold. lia. Qed.
 (* ============================================================================================== *)
 (* 4. Residue of a frame with its trailer; the receiver's check                                    *)
 (* ============================================================================================== *)
-Lemma bit_step_lt c : c < 65536 -> bit_step c < 65536.
-Proof.
-  intros H. rewrite bit_step_alt. apply (lxor_lt_pow2 _ _ 16).
-  - rewrite N.shiftr_div_pow2. change (2 ^ 16) with 65536. change (2 ^ 1) with 2. lia.
-  - destruct (N.odd c); reflexivity.
-Qed.
 Lemma iter_bit_step_lt n : forall c, c < 65536 -> iter n bit_step c < 65536.
 Proof. induction n as [|n IH]; intros c H; cbn [iter]; [exact H|]. apply IH, bit_step_lt, H. Qed.
 Lemma byte_step_lt c b : c < 65536 -> b < 256 -> byte_step c b < 65536.
@@ -586,6 +702,36 @@ Proof.
   apply negb_true_iff, N.ltb_ge in S. lia.
 Qed.
 
+Lemma byte_step_eq c b : byte_step c b = iter 8 bit_step (N.lxor c b).
+Proof. reflexivity. Qed.
+Lemma byte_step_kernel s h : s < 65536 -> h < 256 -> byte_step s h = 0 -> s = h.
+Proof.
+  intros Hs Hh E. rewrite byte_step_eq in E. apply iter_bit_step_kernel in E.
+  - apply N.lxor_eq in E. exact E.
+  - apply (lxor_lt_pow2 _ _ 16); [exact Hs|change (2 ^ 16) with 65536; lia].
+Qed.
+(* split off the correct low byte by linearity *)
+Lemma byte_step_split c lo :
+  byte_step c lo = N.lxor (c / 256) (iter 8 bit_step (N.lxor (crc_lo c) lo)).
+Proof.
+  rewrite <- byte_step_lo. rewrite !byte_step_eq. rewrite <- iter_bit_step_lxor. f_equal. xor_solve.
+Qed.
+Lemma two_bytes_kernel c lo hi : c < 65536 -> lo < 256 -> hi < 256 ->
+  byte_step (byte_step c lo) hi = 0 -> lo = crc_lo c /\ hi = crc_hi c.
+Proof.
+  intros Hc Hlo Hhi E.
+  apply byte_step_kernel in E; [|apply byte_step_lt; assumption|exact Hhi].
+  rewrite byte_step_split in E.
+  assert (Hd : N.lxor (crc_lo c) lo < 256).
+  { apply (lxor_lt_pow2 _ _ 8); [unfold crc_lo; change (2 ^ 8) with 256; lia|exact Hlo]. }
+  assert (Z : N.lxor (crc_lo c) lo = 0).
+  { apply low_kernel; [exact Hd|].
+    apply lxor_cancel_l in E. rewrite E.
+    apply (lxor_lt_pow2 _ _ 8); change (2 ^ 8) with 256; lia. }
+  rewrite Z, iter_bit_step_0, N.lxor_0_r in E. apply N.lxor_eq in Z.
+  split; [symmetry; exact Z|]. unfold crc_hi. rewrite N.mod_small by lia. symmetry. exact E.
+Qed.
+
 Theorem crc_from_check_iff init front lo hi : init < 65536 -> bytes_ok front -> lo < 256 -> hi < 256 ->
   (crc_from init (front ++ [lo; hi]) = 0 <->
    [lo; hi] = [crc_lo (crc_from init front); crc_hi (crc_from init front)]).
@@ -593,24 +739,9 @@ Proof.
   intros Hi Hf Hlo Hhi. split.
   2:{ intros E. inversion E. subst lo hi. apply crc_from_residue; assumption. }
   rewrite crc_from_app. pose proof (crc_from_lt init front Hi Hf) as Hc.
-  set (c := crc_from init front) in *. unfold crc_from. cbn [fold_left]. intros E.
-  (* second byte: the register before it equals hi *)
-  assert (S : byte_step c lo = hi).
-  { unfold byte_step in E at 1. apply iter_bit_step_kernel in E.
-    - apply N.lxor_eq in E. exact E.
-    - apply (lxor_lt_pow2 _ _ 16); [apply byte_step_lt; assumption|change (2 ^ 16) with 65536; lia]. }
-  (* first byte: split off the correct low byte by linearity *)
-  assert (D : byte_step c lo = N.lxor (c / 256) (iter 8 bit_step (N.lxor (crc_lo c) lo))).
-  { rewrite <- byte_step_lo. unfold byte_step. rewrite <- iter_bit_step_lxor. f_equal. xor_solve. }
-  assert (Hd : N.lxor (crc_lo c) lo < 256).
-  { apply (lxor_lt_pow2 _ _ 8); [unfold crc_lo; change (2 ^ 8) with 256; lia|exact Hlo]. }
-  assert (Z : N.lxor (crc_lo c) lo = 0).
-  { apply low_kernel; [exact Hd|].
-    rewrite S in D. symmetry in D. apply lxor_cancel_l in D. rewrite D.
-    apply (lxor_lt_pow2 _ _ 8); change (2 ^ 8) with 256; lia. }
-  apply N.lxor_eq in Z. rewrite Z, N.lxor_nilpotent in D.
-  rewrite iter_bit_step_0, N.lxor_0_r in D.
-  unfold crc_hi. rewrite N.mod_small by lia. rewrite <- Z. congruence.
+  remember (crc_from init front) as c eqn:Hcdef. clear Hcdef.
+  change (crc_from c [lo; hi]) with (byte_step (byte_step c lo) hi). intros E.
+  destruct (two_bytes_kernel c lo hi Hc Hlo Hhi E) as [A B]. rewrite <- A, <- B. reflexivity.
 Qed.
 Theorem crc16_check_iff front lo hi : bytes_ok front -> lo < 256 -> hi < 256 ->
   (crc16 (front ++ [lo; hi]) = 0 <-> [lo; hi] = crc_trailer front).
@@ -711,7 +842,8 @@ Proof.
   unfold unit_err.
   induction f as [|x f IH]; intros i d Hi; [cbn in Hi; lia|].
   destruct i as [|i]; cbn [flip_at length].
-  - cbn [zeros repeat app xorl]. rewrite Nat.sub_0_r. fold (zeros (length f)). rewrite xorl_zeros_r. reflexivity.
+  - replace (S (length f) - 1)%nat with (length f) by lia.
+    cbn [zeros repeat app xorl]. fold (zeros (length f)). rewrite xorl_zeros_r. reflexivity.
   - cbn [zeros repeat app xorl]. fold (zeros i). rewrite N.lxor_0_r. f_equal.
     replace (S (length f) - S (S i))%nat with (length f - S i)%nat by lia. apply IH. cbn in Hi. lia.
 Qed.
@@ -786,7 +918,7 @@ Theorem crc0_burst16 e : bytes_ok e -> burst16 e -> crc0 e <> 0.
 Proof.
   intros Hok [k [w [j [Hb [L T]]]]] E. unfold crc0 in E.
   rewrite crc_from_bits, Hb, !crc_bits_app in E by exact Hok.
-  rewrite crc_bits_false, iter_bit_step_0 in E. rewrite crc_bits_false in E.
+  rewrite (crc_bits_false k 0), iter_bit_step_0 in E. rewrite crc_bits_false in E.
   apply iter_bit_step_kernel in E; [|apply crc_bits_lt; reflexivity].
   exact (window_nonzero w L T E).
 Qed.
